@@ -112,6 +112,14 @@ def channelWritten (s : C01.Src) (a b : Int) : Bool := (cropChannel s a b).len â
 def keepMeta (start stop a b : Int) : Bool :=
   decide (stop â‰¥ a) && decide (start < b) && decide (stop - start > 0)
 
+/-- the whole decision of `_write_cropped_metadata`: the item is asked to crop itself (`lk_file[name][a:b]`); when that
+    raises `IndexError`/`TypeError` (items that cannot be sliced: markers, notes) it is not written; otherwise the keep
+    rule is applied to the cropped item's own `start`/`stop`, which also become the new time attributes -/
+def writeCroppedMeta (sliced : Option (Int Ã— Int)) (a b : Int) : Option (Int Ã— Int) :=
+  match sliced with
+  | none => none
+  | some (st, sp) => if keepMeta st sp a b then some (st, sp) else none
+
 /-! ### Sample period read back from the stored rate -/
 
 /-- `int(round(1e9 / rate))` on the stored double (round-half-away here, half-even in Python: they
@@ -510,6 +518,14 @@ def handle : List String â†’ Option String
     let nodes := paths.map fun p => p.map Char.ofNat
     let out := writeOmit ps nodes
     some (showList id (nodes.map (nodeStatus out)))
+  | ["c05.keepx", st, sp, a, b] => do
+    -- st = sp = "E": cropping the item raised IndexError/TypeError; answer: N | new "start stop" attributes
+    let a â† int? a; let b â† int? b
+    let sl â† if st == "E" && sp == "E" then some none else do
+      let st â† int? st; let sp â† int? sp; some (some (st, sp))
+    match writeCroppedMeta sl a b with
+    | none => some "N"
+    | some (x, y) => some (toString x ++ " " ++ toString y)
   | _ => none
 
 end Verif.C05
